@@ -434,3 +434,207 @@ example : Ref.sar (0x80#8) 200 = 0xff#8 := by decide
 example : Ref.piece (0xab#8) (0xcd#8) = 0xabcd#16 := by decide
 
 end CweModel.C01
+
+/-! ### the overflow-checked helpers of `BitvectorExtended` (used by the interval domain) -/
+
+namespace CweModel.C01
+open CweModel CweModel.IR BitVec
+variable {w : Nat}
+
+/-- wrap-around of a sum/difference of two in-range values -/
+theorem bmod_cases (w : Nat) (hw : 0 < w) (s : Int) (h1 : -2 ^ w ≤ s) (h2 : s < 2 ^ w) :
+    s.bmod (2 ^ w) = if s ≥ 2 ^ (w - 1) then s - 2 ^ w else if s < -2 ^ (w - 1) then s + 2 ^ w else s := by
+  obtain ⟨k, rfl⟩ : ∃ k, w = k + 1 := ⟨w - 1, by omega⟩
+  have hk : (2 : Int) ^ (k + 1) = 2 * 2 ^ k := by rw [Int.pow_succ]; omega
+  have hpos := two_pow_pos k
+  have hc : ((2 ^ (k + 1) : Nat) : Int) = 2 ^ (k + 1) := by simp
+  have e1 : ((2 ^ (k + 1) : Nat) : Int) / 2 = 2 ^ k := by rw [hc, hk]; omega
+  have e2 : (((2 ^ (k + 1) : Nat) : Int) + 1) / 2 = 2 ^ k := by rw [hc, hk]; omega
+  simp only [Nat.add_sub_cancel]
+  split
+  · have : (s - 2 ^ (k + 1)).bmod (2 ^ (k + 1)) = s - 2 ^ (k + 1) :=
+      Int.bmod_eq_of_le (by rw [e1]; omega) (by rw [e2]; omega)
+    rw [← this, ← hc, Int.sub_bmod_right]
+  · split
+    · have : (s + 2 ^ (k + 1)).bmod (2 ^ (k + 1)) = s + 2 ^ (k + 1) :=
+        Int.bmod_eq_of_le (by rw [e1]; omega) (by rw [e2]; omega)
+      rw [← this, ← hc, Int.add_bmod_right]
+    · exact Int.bmod_eq_of_le (by rw [e1]; omega) (by rw [e2]; omega)
+
+/-- `(x + y).toInt` by cases (no wrap / wrap down / wrap up) -/
+theorem toInt_add_cases (x y : BitVec w) (hw : w ≠ 0) :
+    (x.toInt + y.toInt ≥ 2 ^ (w - 1) ∧ (x + y).toInt = x.toInt + y.toInt - 2 ^ w) ∨
+    (x.toInt + y.toInt < -2 ^ (w - 1) ∧ (x + y).toInt = x.toInt + y.toInt + 2 ^ w) ∨
+    (-2 ^ (w - 1) ≤ x.toInt + y.toInt ∧ x.toInt + y.toInt < 2 ^ (w - 1) ∧ (x + y).toInt = x.toInt + y.toInt) := by
+  have hx1 := BitVec.le_toInt x; have hx2 := @BitVec.toInt_lt w x
+  have hy1 := BitVec.le_toInt y; have hy2 := @BitVec.toInt_lt w y
+  have h2 : (2 : Int) ^ w = 2 * 2 ^ (w - 1) := by
+    obtain ⟨k, rfl⟩ : ∃ k, w = k + 1 := ⟨w - 1, by omega⟩
+    rw [Int.pow_succ]; simp; omega
+  have hsum := bmod_cases w (by omega) (x.toInt + y.toInt) (by omega) (by omega)
+  rw [BitVec.toInt_add, hsum]
+  by_cases h1 : x.toInt + y.toInt ≥ 2 ^ (w - 1)
+  · left; simp [h1]
+  · by_cases h3 : x.toInt + y.toInt < -2 ^ (w - 1)
+    · right; left; simp [h1, h3]
+    · right; right; simp [h1, h3]; omega
+
+theorem toInt_sub_cases (x y : BitVec w) (hw : w ≠ 0) :
+    (x.toInt - y.toInt ≥ 2 ^ (w - 1) ∧ (x - y).toInt = x.toInt - y.toInt - 2 ^ w) ∨
+    (x.toInt - y.toInt < -2 ^ (w - 1) ∧ (x - y).toInt = x.toInt - y.toInt + 2 ^ w) ∨
+    (-2 ^ (w - 1) ≤ x.toInt - y.toInt ∧ x.toInt - y.toInt < 2 ^ (w - 1) ∧ (x - y).toInt = x.toInt - y.toInt) := by
+  have hx1 := BitVec.le_toInt x; have hx2 := @BitVec.toInt_lt w x
+  have hy1 := BitVec.le_toInt y; have hy2 := @BitVec.toInt_lt w y
+  have h2 : (2 : Int) ^ w = 2 * 2 ^ (w - 1) := by
+    obtain ⟨k, rfl⟩ : ∃ k, w = k + 1 := ⟨w - 1, by omega⟩
+    rw [Int.pow_succ]; simp; omega
+  have hsum := bmod_cases w (by omega) (x.toInt - y.toInt) (by omega) (by omega)
+  rw [BitVec.toInt_sub, hsum]
+  by_cases h1 : x.toInt - y.toInt ≥ 2 ^ (w - 1)
+  · left; simp [h1]
+  · by_cases h3 : x.toInt - y.toInt < -2 ^ (w - 1)
+    · right; left; simp [h1, h3]
+    · right; right; simp [h1, h3]; omega
+
+/-- **C01-sadd-checked.** `signed_add_overflow_checked` returns the sum exactly when the signed
+addition does not overflow. -/
+theorem saddChecked_eq (x y : BitVec w) :
+    Impl.saddChecked x y = if Ref.scarry x y then none else some (Ref.add x y) := by
+  by_cases hw : w = 0
+  · subst hw
+    have hx := BitVec.of_length_zero (x := x); have hy := BitVec.of_length_zero (x := y)
+    subst hx; subst hy; decide
+  have hx1 := BitVec.le_toInt x; have hx2 := @BitVec.toInt_lt w x
+  have hy1 := BitVec.le_toInt y; have hy2 := @BitVec.toInt_lt w y
+  have h2 : (2 : Int) ^ w = 2 * 2 ^ (w - 1) := by
+    obtain ⟨k, rfl⟩ : ∃ k, w = k + 1 := ⟨w - 1, by omega⟩
+    rw [Int.pow_succ]; simp; omega
+  simp only [Impl.saddChecked, Ref.scarry, ← add_eq, BitVec.sle, BitVec.msb_eq_toInt]
+  rcases toInt_add_cases x y hw with ⟨h1, hr⟩ | ⟨h1, hr⟩ | ⟨h1, h3, hr⟩ <;> rw [hr] <;>
+    by_cases hy : y.toInt < 0 <;> simp only [hy, decide_true, decide_false, ge_iff_le, Bool.or_eq_true, decide_eq_true_eq] <;>
+    (first | rw [decide_eq_true (by omega : _ ≤ _)] | rw [decide_eq_false (by omega : ¬ _ ≤ _)]) <;>
+    (first | rw [if_pos (by omega)] | rw [if_neg (by omega)]) <;> (try (first | rfl | (exfalso; omega)))
+
+theorem ssubChecked_eq (x y : BitVec w) :
+    Impl.ssubChecked x y = if Ref.sborrow x y then none else some (Ref.sub x y) := by
+  by_cases hw : w = 0
+  · subst hw
+    have hx := BitVec.of_length_zero (x := x); have hy := BitVec.of_length_zero (x := y)
+    subst hx; subst hy; decide
+  have hx1 := BitVec.le_toInt x; have hx2 := @BitVec.toInt_lt w x
+  have hy1 := BitVec.le_toInt y; have hy2 := @BitVec.toInt_lt w y
+  have h2 : (2 : Int) ^ w = 2 * 2 ^ (w - 1) := by
+    obtain ⟨k, rfl⟩ : ∃ k, w = k + 1 := ⟨w - 1, by omega⟩
+    rw [Int.pow_succ]; simp; omega
+  simp only [Impl.ssubChecked, Ref.sborrow, ← sub_eq, BitVec.sle, BitVec.msb_eq_toInt]
+  rcases toInt_sub_cases x y hw with ⟨h1, hr⟩ | ⟨h1, hr⟩ | ⟨h1, h3, hr⟩ <;> rw [hr] <;>
+    by_cases hy : y.toInt < 0 <;> simp only [hy, decide_true, decide_false, ge_iff_le, Bool.or_eq_true, decide_eq_true_eq] <;>
+    (first | rw [decide_eq_true (by omega : _ ≤ _)] | rw [decide_eq_false (by omega : ¬ _ ≤ _)]) <;>
+    (first | rw [if_pos (by omega)] | rw [if_neg (by omega)]) <;> (try (first | rfl | (exfalso; omega)))
+
+
+theorem toInt_neg_one (hw : w ≠ 0) : (-1#w).toInt = -1 := by
+  have : -1#w = BitVec.ofInt w (-1) := by
+    have : BitVec.ofInt w (-1) = - BitVec.ofInt w 1 := by rw [← BitVec.ofInt_neg]
+    rw [this]; congr 1
+  rw [this]
+  have h1 : (1 : Int) ≤ 2 ^ (w - 1) := by have := two_pow_pos (w - 1); omega
+  exact toInt_ofInt_of_range w (-1) (by omega) (by omega) (by omega)
+
+/-- **C01-smul-flag.** `signed_mult_with_overflow_flag` (widths up to 64 bit) returns the wrapped
+product and reports overflow exactly when the mathematical product of the signed values does not
+fit — including `-1 * MIN`, the case repaired by the `fix:` commit. -/
+theorem smulFlag_eq (x y : BitVec w) (hw : w ≤ 64) :
+    Impl.smulFlag x y = some (Ref.mul x y, x.smulOverflow y) := by
+  by_cases hw0 : w = 0
+  · subst hw0
+    have hx := BitVec.of_length_zero (x := x); have hy := BitVec.of_length_zero (x := y)
+    subst hx; subst hy; decide
+  have hx1 := BitVec.le_toInt x; have hx2 := @BitVec.toInt_lt w x
+  have hy1 := BitVec.le_toInt y; have hy2 := @BitVec.toInt_lt w y
+  have hp1 : (1 : Int) ≤ 2 ^ (w - 1) := by have := two_pow_pos (w - 1); omega
+  have h2 : (2 : Int) ^ w = 2 * 2 ^ (w - 1) := by
+    obtain ⟨k, rfl⟩ : ∃ k, w = k + 1 := ⟨w - 1, by omega⟩
+    rw [Int.pow_succ]; simp; omega
+  unfold Impl.smulFlag
+  by_cases hx0 : x = 0#w
+  · subst hx0
+    simp [Ref.mul, BitVec.smulOverflow]
+    omega
+  · have hxb : (x == 0#w) = false := by simpa using hx0
+    have hw' : ¬ w > 64 := by omega
+    simp only [hxb, Bool.false_eq_true, if_false, hw', ← mul_eq]
+    congr 1; congr 1
+    have hxi : x.toInt ≠ 0 := by
+      intro h; apply hx0; apply BitVec.eq_of_toInt_eq; simpa using h
+    by_cases hov : x.smulOverflow y = true
+    · rw [hov]
+      simp only [BitVec.smulOverflow, Bool.or_eq_true, decide_eq_true_eq] at hov
+      by_cases hxm : x = -1#w
+      · -- -1 * y overflows only for y = MIN: the special case of the fix
+        have hym : y = BitVec.intMin w := by
+          apply BitVec.eq_of_toInt_eq
+          rw [BitVec.toInt_intMin_of_pos (by omega)]
+          rw [hxm, toInt_neg_one hw0] at hov
+          omega
+        simp [hxm, hym]
+      · -- otherwise the division check detects it
+        have hne : x * y ≠ BitVec.intMin w ∨ x ≠ -1#w := Or.inr hxm
+        have hsd := BitVec.toInt_sdiv_of_ne_or_ne (x * y) x hne
+        have hr1 := BitVec.le_toInt (x * y); have hr2 := @BitVec.toInt_lt w (x * y)
+        have hrm : (x * y).toInt + ((2 ^ w : Nat) : Int) * Int.bdiv (x.toInt * y.toInt) (2 ^ w) = x.toInt * y.toInt := by
+          rw [BitVec.toInt_mul]; exact Int.bmod_add_bdiv _ _
+        have hcast : ((2 ^ w : Nat) : Int) = 2 ^ w := by simp
+        rw [hcast] at hrm
+        have hdm := Int.mul_tdiv_add_tmod (x * y).toInt x.toInt
+        have habs : ((x * y).toInt.tmod x.toInt).natAbs < x.toInt.natAbs := by
+          rw [Int.natAbs_tmod]; exact Nat.mod_lt _ (by omega)
+        have hsne : (x * y).sdiv x ≠ y := by
+          intro heq
+          have hq : (x * y).toInt.tdiv x.toInt = y.toInt := by rw [← hsd, heq]
+          rw [hq] at hdm
+          -- k ≠ 0 because the product is out of range while the wrapped result is in range
+          generalize hk : Int.bdiv (x.toInt * y.toInt) (2 ^ w) = k at hrm
+          have hk0 : k ≠ 0 := by
+            intro h0; rw [h0] at hrm; omega
+          have hmk : (2 : Int) ^ w * k ≥ 2 ^ w ∨ (2 : Int) ^ w * k ≤ -2 ^ w := by
+            have hm := two_pow_pos w
+            rcases Int.lt_or_gt_of_ne hk0 with hneg | hpos
+            · right
+              have : (2 : Int) ^ w * k ≤ 2 ^ w * (-1) := Int.mul_le_mul_of_nonneg_left (by omega) (by omega)
+              omega
+            · left
+              have : (2 : Int) ^ w * 1 ≤ 2 ^ w * k := Int.mul_le_mul_of_nonneg_left (by omega) (by omega)
+              omega
+          omega
+        have : ((x * y).sdiv x != y) = true := by simpa using hsne
+        simp [this]
+    · have hov' : x.smulOverflow y = false := by simpa using hov
+      rw [hov']
+      have hr := BitVec.toInt_mul_of_not_smulOverflow (x := x) (y := y) (by simp [hov'])
+      simp only [BitVec.smulOverflow, Bool.or_eq_false_iff, decide_eq_false_iff_not] at hov'
+      have hsp : ((x == -1#w) && (y == BitVec.intMin w)) = false := by
+        rw [Bool.and_eq_false_iff]
+        by_cases hxm : x = -1#w
+        · right
+          have : y ≠ BitVec.intMin w := by
+            intro hy; subst hxm; subst hy
+            rw [toInt_neg_one hw0, BitVec.toInt_intMin_of_pos (by omega)] at hov'
+            omega
+          simpa using this
+        · left; simpa using hxm
+      rw [hsp, Bool.false_or]
+      have hne : x * y ≠ BitVec.intMin w ∨ x ≠ -1#w := by
+        by_cases hxm : x = -1#w
+        · left
+          intro hm
+          have := congrArg BitVec.toInt hm
+          rw [hr, BitVec.toInt_intMin_of_pos (by omega), hxm, toInt_neg_one hw0] at this
+          omega
+        · right; exact hxm
+      have hs : ((x * y).sdiv x).toInt = y.toInt := by
+        rw [BitVec.toInt_sdiv_of_ne_or_ne _ _ hne, hr, Int.mul_tdiv_cancel_left _ hxi]
+      have : (x * y).sdiv x = y := BitVec.eq_of_toInt_eq hs
+      simp [this]
+
+end CweModel.C01
